@@ -32,9 +32,6 @@ Qed.
 Lemma readfull_app a rest n : n = zlen a -> readfull (a ++ rest) n = inl (a, rest).
 Proof. intros ->. unfold readfull. now rewrite take_app. Qed.
 
-Lemma take_pad_app a rest : take_pad (a ++ rest) (length a) = (a, rest).
-Proof. induction a as [|x a IH]; simpl; [destruct rest; reflexivity|now rewrite IH]. Qed.
-
 Lemma signed_unsigned bits v :
   0 < bits -> - 2 ^ (bits - 1) <= v < 2 ^ (bits - 1) -> signed bits (v mod 2 ^ bits) = v.
 Proof.
@@ -51,106 +48,52 @@ Proof.
 Qed.
 
 (* ------------------------------------------------------------------ *)
-(* budget                                                               *)
-
-Definition after (b n : Z) : Z := if b =? 0 then 0 else b - n.
-Definition enough (b n : Z) : Prop := b = 0 \/ n < b.
-
-Lemma consume_ok b n : enough b n -> consume b n = Some (after b n).
-Proof.
-  unfold enough, consume, after. intros [->|H]; [reflexivity|].
-  destruct (b =? 0) eqn:E; [reflexivity|]. destruct (b <? n) eqn:F; [lia|reflexivity].
-Qed.
-
-Lemma after_after b n m : enough b (n + m) -> 0 <= m -> after (after b n) m = after b (n + m).
-Proof.
-  unfold enough, after. intros [->|H] Hm; [reflexivity|].
-  destruct (b =? 0) eqn:E; [reflexivity|]. destruct (b - n =? 0) eqn:F; lia.
-Qed.
-
-Lemma enough_after b n m : enough b (n + m) -> 0 <= n -> 0 <= m -> enough (after b n) m.
-Proof.
-  unfold enough, after. intros [->|H] Hn Hm; [left; reflexivity|].
-  destruct (b =? 0) eqn:E; [left; reflexivity|right; lia].
-Qed.
-
-Lemma enough_le b n m : enough b m -> n <= m -> enough b n.
-Proof. unfold enough. intros [->|H] L; [left; reflexivity|right; lia]. Qed.
-
-Lemma after_0 b : after b 0 = b.
-Proof. unfold after. destruct (b =? 0) eqn:E; lia. Qed.
-
-(* ------------------------------------------------------------------ *)
-(* single fields                                                        *)
-
-Lemma rd_fixed_enc n v rest b :
-  enough b (Z.of_nat n) ->
-  rd_fixed (Z.of_nat n) (le_enc n v ++ rest) b = UOk (v mod 256 ^ Z.of_nat n) rest (after b (Z.of_nat n)).
-Proof.
-  intros H. unfold rd_fixed. rewrite consume_ok by exact H.
-  rewrite readfull_app by (unfold zlen; now rewrite le_enc_length).
-  now rewrite le_dec_enc.
-Qed.
-
-Lemma rd_raw_enc n v rest b :
-  rd_raw (Z.of_nat n) (le_enc n v ++ rest) b = UOk (v mod 256 ^ Z.of_nat n) rest b.
-Proof.
-  unfold rd_raw. rewrite readfull_app by (unfold zlen; now rewrite le_enc_length).
-  now rewrite le_dec_enc.
-Qed.
-
-Lemma rd_raw8_enc v rest b : rd_raw 8 (le_enc 8 v ++ rest) b = UOk (v mod 256 ^ Z.of_nat 8) rest b.
-Proof. exact (rd_raw_enc 8 v rest b). Qed.
-Lemma rd_raw2_enc v rest b : rd_raw 2 (le_enc 2 v ++ rest) b = UOk (v mod 256 ^ Z.of_nat 2) rest b.
-Proof. exact (rd_raw_enc 2 v rest b). Qed.
-
-Definition two63 := 9223372036854775808.
-
-Lemma mk_ok lim n elt : 0 <= n -> 0 <= elt -> n * elt <= lim -> lim <= maxAlloc -> mk lim n elt = MkOk.
-Proof.
-  intros. unfold mk.
-  destruct (n <? 0) eqn:A; [lia|]. destruct (maxAlloc <? n * elt) eqn:B; [lia|].
-  destruct (lim <? n * elt) eqn:C; [lia|]. reflexivity.
-Qed.
-
-Lemma maxAlloc_lt : maxAlloc < two63.
-Proof. reflexivity. Qed.
-
-Lemma len64 n : 0 <= n < two63 -> signed 64 (n mod 256 ^ Z.of_nat 8) = n.
-Proof.
-  intros H. change (256 ^ Z.of_nat 8) with (2 ^ 64). apply signed_unsigned; [lia|].
-  change (2 ^ (64 - 1)) with two63. lia.
-Qed.
-
-Section RoundTrip.
-Variable lim : Z.
-Hypothesis lim_ok : 0 <= lim <= maxAlloc.
+(* generic list facts                                                   *)
 
 Lemma zlen_nonneg {A} (l : list A) : 0 <= zlen l.
 Proof. unfold zlen. lia. Qed.
 
-Lemma rd_str_enc s rest b :
-  zlen s <= lim -> enough b (8 + zlen s) ->
-  rd_str lim (wstr s ++ rest) b = UOk s rest (after b (8 + zlen s)).
+Lemma zlen_app {A} (a b : list A) : zlen (a ++ b) = zlen a + zlen b.
+Proof. unfold zlen. rewrite app_length. lia. Qed.
+
+Lemma zlen_cons {A} (x : A) l : zlen (x :: l) = 1 + zlen l.
+Proof. unfold zlen. cbn [length]. lia. Qed.
+
+Lemma zlen_enc n v : zlen (le_enc n v) = Z.of_nat n.
+Proof. unfold zlen. now rewrite le_enc_length. Qed.
+
+Lemma wstr_len s : zlen (wstr s) = 8 + zlen s.
+Proof. unfold wstr. rewrite zlen_app, zlen_enc. lia. Qed.
+
+Fixpoint sumz {A} (f : A -> Z) (l : list A) : Z :=
+  match l with [] => 0 | a :: r => f a + sumz f r end.
+
+Lemma sumz_nonneg {A} (f : A -> Z) l : (forall a, In a l -> 0 <= f a) -> 0 <= sumz f l.
 Proof.
-  intros Hl Hb. pose proof (zlen_nonneg s) as Hn. pose proof maxAlloc_lt.
-  unfold rd_str, wstr. rewrite <- app_assoc.
-  change 8 with (Z.of_nat 8) at 1.
-  rewrite rd_fixed_enc by (eapply enough_le; [exact Hb|change (Z.of_nat 8) with 8; lia]).
-  rewrite len64 by lia. change (Z.of_nat 8) with 8.
-  unfold u64. rewrite Z.mod_small by (unfold two64; unfold two63 in *; lia).
-  rewrite consume_ok by (apply enough_after; [exact Hb|lia|lia]).
-  rewrite after_after by (auto; lia).
-  rewrite mk_ok by lia.
-  destruct (zlen s =? 0) eqn:E.
-  - destruct s; [reflexivity|unfold zlen in E; cbn [length] in E; lia].
-  - destruct s as [|x s]; [unfold zlen in E; cbn in E; lia|].
-    cbn [app]. unfold zlen. rewrite Nat2Z.id.
-    change (x :: s ++ rest) with ((x :: s) ++ rest). now rewrite take_pad_app.
+  induction l as [|a l IH]; cbn [sumz]; intros H; [lia|].
+  assert (0 <= f a) by (apply H; now left).
+  assert (0 <= sumz f l) by (apply IH; intros; apply H; now right). lia.
 Qed.
 
-(* ------------------------------------------------------------------ *)
-(* arrays of fixed-width words                                          *)
+Lemma sumz_ge_len {A} (f : A -> Z) l : (forall a, In a l -> 1 <= f a) -> zlen l <= sumz f l.
+Proof.
+  induction l as [|a l IH]; cbn [sumz]; intros H; [unfold zlen; cbn; lia|].
+  rewrite zlen_cons. assert (1 <= f a) by (apply H; now left).
+  assert (zlen l <= sumz f l) by (apply IH; intros; apply H; now right). lia.
+Qed.
+
+Lemma sumz_in {A} (f : A -> Z) l a : (forall x, In x l -> 0 <= f x) -> In a l -> f a <= sumz f l.
+Proof.
+  induction l as [|x l IH]; cbn [sumz In]; intros H Hi; [tauto|]. destruct Hi as [->|Hi].
+  - assert (0 <= sumz f l) by (apply sumz_nonneg; intros; apply H; now right). lia.
+  - assert (0 <= f x) by (apply H; now left).
+    assert (f a <= sumz f l) by (apply IH; auto; intros; apply H; now right). lia.
+Qed.
+
+Lemma zlen_flat_map {A} (f : A -> bytes) l : zlen (flat_map f l) = sumz (fun a => zlen (f a)) l.
+Proof.
+  induction l as [|a l IH]; [reflexivity|]. cbn [flat_map sumz]. now rewrite zlen_app, IH.
+Qed.
 
 Lemma chunks4_cons v r : chunks4 (le_enc 4 v ++ r) = le_dec (le_enc 4 v) :: chunks4 r.
 Proof. reflexivity. Qed.
@@ -170,7 +113,7 @@ Qed.
 
 Definition u32_ok (v : Z) := 0 <= v < 2 ^ 32.
 Definition i32_ok (v : Z) := - 2 ^ 31 <= v < 2 ^ 31.
-Definition i16_ok (v : Z) := - 2 ^ 15 <= v < 2 ^ 15.
+Definition cnt_ok (v : Z) := 0 <= v < 2 ^ 15.   (* a non-negative int16 *)
 
 Lemma map_mod_u32 l : Forall u32_ok l -> map (fun v => v mod 2 ^ 32) l = l.
 Proof.
@@ -184,72 +127,19 @@ Proof.
   apply signed_unsigned; [lia|]. exact Hv.
 Qed.
 
-(* ------------------------------------------------------------------ *)
-(* sequences                                                            *)
+Definition two63 := 9223372036854775808.
 
-Fixpoint sumz {A} (f : A -> Z) (l : list A) : Z :=
-  match l with [] => 0 | a :: r => f a + sumz f r end.
-
-Lemma sumz_nonneg {A} (f : A -> Z) l : (forall a, In a l -> 0 <= f a) -> 0 <= sumz f l.
+Lemma len64 n : 0 <= n < two63 -> signed 64 (n mod 256 ^ Z.of_nat 8) = n.
 Proof.
-  induction l as [|a l IH]; cbn [sumz]; intros H; [lia|].
-  assert (0 <= f a) by (apply H; now left).
-  assert (0 <= sumz f l) by (apply IH; intros; apply H; now right). lia.
+  intros H. change (256 ^ Z.of_nat 8) with (2 ^ 64). apply signed_unsigned; [lia|].
+  change (2 ^ (64 - 1)) with two63. lia.
 Qed.
 
-Lemma rd_many_enc {A} (rd : bytes -> Z -> ures A) (enc : A -> bytes) (cost : A -> Z) (l : list A) :
-  (forall a, In a l -> 0 <= cost a /\
-     forall rest b, enough b (cost a) -> rd (enc a ++ rest) b = UOk a rest (after b (cost a))) ->
-  forall rest b, enough b (sumz cost l) ->
-  rd_many rd (length l) (flat_map enc l ++ rest) b = UOk l rest (after b (sumz cost l)).
+Lemma mk_ok lim n elt : 0 <= n -> 0 <= elt -> n * elt <= lim -> lim <= maxAlloc -> mk lim n elt = MkOk.
 Proof.
-  induction l as [|a l IH]; intros H rest b Hb.
-  - cbn. now rewrite after_0.
-  - cbn [length flat_map rd_many sumz] in *.
-    destruct (H a (or_introl eq_refl)) as [Ha Hrd].
-    assert (Hs : 0 <= sumz cost l) by (apply sumz_nonneg; intros x Hx; apply H; now right).
-    rewrite <- app_assoc. rewrite Hrd by (eapply enough_le; [exact Hb|lia]).
-    rewrite IH; [|intros x Hx; apply H; now right|apply enough_after; [exact Hb|lia|lia]].
-    rewrite after_after by (auto; lia). reflexivity.
-Qed.
-
-(* ------------------------------------------------------------------ *)
-(* well-formed constants: what a Go value of these types can hold, and   *)
-(* every slice small enough for one allocation of lim bytes              *)
-
-Definition byte_ok (v : Z) := 0 <= v < 256.
-
-Record wf_head (h : chead) : Prop := {
-  wf_src : zlen (source h) <= lim;
-  wf_name : zlen (name h) <= lim;
-  wf_ops : Forall u32_ok (ops h);
-  wf_nops : zlen (ops h) * SZ_OP <= lim;
-  wf_lines : Forall i32_ok (lines h);
-  wf_nlines : zlen (lines h) * SZ_LINE <= lim;
-  wf_uc : i16_ok (upvalueCount h);
-  wf_rc : i16_ok (regCount h);
-  wf_cc : i16_ok (cellCount h);
-  wf_ups : Forall (fun s => zlen s <= lim) (upnames h);
-  wf_nups : zlen (upnames h) * SZ_STRING <= lim }.
-
-Fixpoint wf (k : cst) : Prop :=
-  match k with
-  | KInt z => - two63 <= z < two63
-  | KFlt b => 0 <= b < two64
-  | KStr s => zlen s <= lim
-  | KCode h ks =>
-      wf_head h /\ zlen ks * SZ_VALUE <= lim /\
-      (fix all (l : list cst) : Prop := match l with [] => True | k :: r => wf k /\ all r end) ks
-  end.
-
-Lemma wf_all ks :
-  (fix all (l : list cst) : Prop := match l with [] => True | k :: r => wf k /\ all r end) ks <->
-  (forall k, In k ks -> wf k).
-Proof.
-  induction ks as [|k ks IH]; cbn [In]; [tauto|].
-  rewrite IH. split.
-  - intros [H1 H2] x [<-|Hx]; auto.
-  - intros H. split; [apply H; now left|intros x Hx; apply H; now right].
+  intros. unfold mk.
+  destruct (n <? 0) eqn:A; [lia|]. destruct (maxAlloc <? n * elt) eqn:B; [lia|].
+  destruct (lim <? n * elt) eqn:C; [lia|]. reflexivity.
 Qed.
 
 (* induction principle for the nested type *)
@@ -277,6 +167,39 @@ Section CstInd.
     end.
 End CstInd.
 
+(* ------------------------------------------------------------------ *)
+(* well-formed constants: what Go values of these types can hold         *)
+
+Record wf_head (h : chead) : Prop := {
+  wf_ops : Forall u32_ok (ops h);
+  wf_lines : Forall i32_ok (lines h);
+  wf_uc : cnt_ok (upvalueCount h);
+  wf_rc : cnt_ok (regCount h);
+  wf_cc : cnt_ok (cellCount h) }.
+
+Fixpoint wf (k : cst) : Prop :=
+  match k with
+  | KInt z => - two63 <= z < two63
+  | KFlt b => 0 <= b < two64
+  | KStr s => True
+  | KCode h ks =>
+      wf_head h /\
+      (fix all (l : list cst) : Prop := match l with [] => True | k :: r => wf k /\ all r end) ks
+  end.
+
+Lemma wf_all ks :
+  (fix all (l : list cst) : Prop := match l with [] => True | k :: r => wf k /\ all r end) ks <->
+  (forall k, In k ks -> wf k).
+Proof.
+  induction ks as [|k ks IH]; cbn [In]; [tauto|].
+  rewrite IH. split.
+  - intros [H1 H2] x [<-|Hx]; auto.
+  - intros H. split; [apply H; now left|intros x Hx; apply H; now right].
+Qed.
+
+Lemma wf_code h ks : wf (KCode h ks) <-> wf_head h /\ forall k, In k ks -> wf k.
+Proof. cbn [wf]. now rewrite wf_all. Qed.
+
 (* nesting depth: the fuel rd_cst needs *)
 Fixpoint depth (k : cst) : nat :=
   match k with
@@ -290,163 +213,504 @@ Proof.
   intros [->|H]; [lia|]. specialize (IH H). lia.
 Qed.
 
+(* number of bytes of the encoding = budget the reader consumes *)
 Definition cost (k : cst) : Z := zlen (marshal_cst k).
 
-Lemma wstr_len s : zlen (wstr s) = 8 + zlen s.
-Proof. unfold wstr, zlen. rewrite app_length, le_enc_length. lia. Qed.
-
-Lemma zlen_app {A} (a b : list A) : zlen (a ++ b) = zlen a + zlen b.
-Proof. unfold zlen. rewrite app_length. lia. Qed.
-
-Lemma zlen_cons {A} (x : A) l : zlen (x :: l) = 1 + zlen l.
-Proof. unfold zlen. cbn [length]. lia. Qed.
-
-Lemma zlen_enc n v : zlen (le_enc n v) = Z.of_nat n.
-Proof. unfold zlen. now rewrite le_enc_length. Qed.
-
-Lemma zlen_flat_map {A} (f : A -> bytes) l : zlen (flat_map f l) = sumz (fun a => zlen (f a)) l.
+Lemma cost_pos k : 1 <= cost k.
 Proof.
-  induction l as [|a l IH]; [reflexivity|]. cbn [flat_map sumz]. now rewrite zlen_app, IH.
+  unfold cost. destruct k; cbn [marshal_cst]; rewrite zlen_cons;
+  match goal with |- 1 <= 1 + zlen ?l => pose proof (zlen_nonneg l); lia end.
 Qed.
 
-Lemma rd_strs_enc ups rest b :
-  Forall (fun s => zlen s <= lim) ups ->
-  enough b (zlen (flat_map wstr ups)) ->
-  rd_many (rd_str lim) (length ups) (flat_map wstr ups ++ rest) b
-  = UOk ups rest (after b (zlen (flat_map wstr ups))).
+Lemma cost_code h ks :
+  cost (KCode h ks) =
+    1 + (8 + zlen (source h)) + (8 + zlen (name h)) + 8 + 4 * zlen (ops h) + 8 + 4 * zlen (lines h) + 8
+    + sumz cost ks + 14 + sumz (fun s => 8 + zlen s) (upnames h).
 Proof.
-  intros Hu Hb. rewrite zlen_flat_map in *.
-  apply rd_many_enc with (cost := fun s => zlen (wstr s)); [|exact Hb].
-  intros s Hs. split; [apply zlen_nonneg|].
-  intros r b' Hb'. rewrite wstr_len in *. apply rd_str_enc; [|exact Hb'].
-  rewrite Forall_forall in Hu. now apply Hu.
+  unfold cost at 1. cbn [marshal_cst]. unfold marshal_head1, marshal_head2.
+  rewrite zlen_cons. repeat rewrite zlen_app. repeat rewrite wstr_len. repeat rewrite zlen_enc.
+  repeat rewrite flat_map_len4. rewrite !zlen_flat_map.
+  assert (E : sumz (fun a => zlen (wstr a)) (upnames h) = sumz (fun s => 8 + zlen s) (upnames h)).
+  { induction (upnames h) as [|x l IH]; cbn [sumz]; [reflexivity|]. now rewrite wstr_len, IH. }
+  rewrite E. unfold cost. lia.
 Qed.
 
-Ltac bud Hb :=
-  first [ eapply enough_le; [exact Hb|lia]
-        | apply enough_after; [eapply enough_le; [exact Hb|lia]|lia|lia] ].
+(* ------------------------------------------------------------------ *)
+(* the reader on well-formed encodings                                  *)
+
+Section RoundTrip.
+Variable lim : Z.
+Variable unl : bool.
+Hypothesis lim_ok : 66048 <= lim <= maxAlloc.
+
+Definition after (b n : Z) : Z := if unl then b else b - n.
+Definition enough (b n : Z) : Prop := unl = true \/ n <= b.
+
+Lemma consume_ok b n : enough b n -> consume unl b n = Some (after b n).
+Proof.
+  unfold enough, consume, after. destruct unl; [reflexivity|]. intros [H|H]; [discriminate|].
+  destruct (b <? n) eqn:F; [lia|reflexivity].
+Qed.
+
+Lemma after_after b n m : after (after b n) m = after b (n + m).
+Proof. unfold after. destruct unl; lia. Qed.
+
+Lemma enough_after b n m : enough b (n + m) -> enough (after b n) m.
+Proof. unfold enough, after. destruct unl; [now left|]. intros [H|H]; [discriminate|right; lia]. Qed.
+
+Lemma enough_le b n m : enough b m -> n <= m -> enough b n.
+Proof. unfold enough. intros [H|H] L; [now left|right; lia]. Qed.
+
+Lemma after_0 b : after b 0 = b.
+Proof. unfold after. destruct unl; lia. Qed.
+
+Lemma rd_fixed_enc n v rest b :
+  enough b (Z.of_nat n) ->
+  rd_fixed unl (Z.of_nat n) (le_enc n v ++ rest) b = UOk (v mod 256 ^ Z.of_nat n) rest (after b (Z.of_nat n)).
+Proof.
+  intros H. unfold rd_fixed. rewrite consume_ok by exact H.
+  rewrite readfull_app by (unfold zlen; now rewrite le_enc_length).
+  now rewrite le_dec_enc.
+Qed.
+
+Lemma rd_fixed1_enc v rest b : enough b 1 ->
+  rd_fixed unl 1 (le_enc 1 v ++ rest) b = UOk (v mod 256 ^ Z.of_nat 1) rest (after b 1).
+Proof. exact (rd_fixed_enc 1 v rest b). Qed.
+Lemma rd_fixed8_enc v rest b : enough b 8 ->
+  rd_fixed unl 8 (le_enc 8 v ++ rest) b = UOk (v mod 256 ^ Z.of_nat 8) rest (after b 8).
+Proof. exact (rd_fixed_enc 8 v rest b). Qed.
+
+Lemma rd_raw_enc n v rest b :
+  rd_raw (Z.of_nat n) (le_enc n v ++ rest) b = UOk (v mod 256 ^ Z.of_nat n) rest b.
+Proof.
+  unfold rd_raw. rewrite readfull_app by (unfold zlen; now rewrite le_enc_length).
+  now rewrite le_dec_enc.
+Qed.
+Lemma rd_raw8_enc v rest b : rd_raw 8 (le_enc 8 v ++ rest) b = UOk (v mod 256 ^ Z.of_nat 8) rest b.
+Proof. exact (rd_raw_enc 8 v rest b). Qed.
+Lemma rd_raw2_enc v rest b : rd_raw 2 (le_enc 2 v ++ rest) b = UOk (v mod 256 ^ Z.of_nat 2) rest b.
+Proof. exact (rd_raw_enc 2 v rest b). Qed.
+
+Lemma with_mk_ok {A} n elt (k : ures A) : 0 <= n -> 0 <= elt -> n * elt <= lim -> with_mk lim n elt k = k.
+Proof. intros. unfold with_mk. rewrite mk_ok by lia. reflexivity. Qed.
+
+Lemma rd_bytes_enc a n item rest b :
+  0 <= n -> 1 <= item <= 4 -> zlen a = n * item -> 2 * (n * item) + 512 <= lim -> enough b (n * item) ->
+  rd_bytes lim unl n item (a ++ rest) b = UOk a rest (after b (n * item)).
+Proof.
+  intros Hn Hi Ha Hl Hb. unfold rd_bytes.
+  destruct (n <? 0) eqn:E1; [lia|].
+  assert (n <= maxInt64 / item).
+  { apply Z.div_le_lower_bound; [lia|]. unfold maxInt64. unfold maxAlloc in lim_ok. nia. }
+  destruct (maxInt64 / item <? n) eqn:E2; [lia|].
+  rewrite consume_ok by exact Hb.
+  rewrite readfull_app by lia.
+  destruct (n * item <=? maxEagerRead) eqn:E3; rewrite with_mk_ok; try reflexivity; try lia.
+Qed.
+
+Lemma rd_str_enc s rest b :
+  2 * zlen s + 512 <= lim -> enough b (8 + zlen s) ->
+  rd_str lim unl (wstr s ++ rest) b = UOk s rest (after b (8 + zlen s)).
+Proof.
+  intros Hl Hb. pose proof (zlen_nonneg s) as Hn.
+  unfold rd_str, wstr. rewrite <- app_assoc.
+  rewrite rd_fixed8_enc by (eapply enough_le; [exact Hb|lia]). cbn [ubind].
+  rewrite len64 by (unfold two63; unfold maxAlloc in lim_ok; lia).
+  rewrite rd_bytes_enc; try lia.
+  - rewrite after_after. do 2 f_equal. lia.
+  - apply enough_after. eapply enough_le; [exact Hb|lia].
+Qed.
+
+Lemma rd_words_enc (l : list Z) rest b :
+  2 * (4 * zlen l) + 512 <= lim -> enough b (4 * zlen l) ->
+  rd_words lim unl (zlen l) (flat_map (le_enc 4) l ++ rest) b
+  = UOk (map (fun v => v mod 2 ^ 32) l) rest (after b (4 * zlen l)).
+Proof.
+  intros Hl Hb. pose proof (zlen_nonneg l). unfold rd_words.
+  rewrite rd_bytes_enc; try lia; [|rewrite flat_map_len4; lia|replace (zlen l * 4) with (4 * zlen l) by lia; exact Hb].
+  cbn [ubind]. rewrite with_mk_ok by lia. rewrite chunks4_enc. do 2 f_equal. lia.
+Qed.
+
+Lemma rd_many_enc {A} (rd : bytes -> Z -> ures A) (enc : A -> bytes) (cst_ : A -> Z) (elt : Z) (l : list A) :
+  (forall a, In a l -> 0 <= cst_ a /\
+     forall rest b, enough b (cst_ a) -> rd (enc a ++ rest) b = UOk a rest (after b (cst_ a))) ->
+  forall have rest b, 0 <= have -> 0 <= elt -> 2 * (have + zlen l) * elt <= lim ->
+  enough b (sumz cst_ l) ->
+  rd_many lim rd elt (length l) have (flat_map enc l ++ rest) b = UOk l rest (after b (sumz cst_ l)).
+Proof.
+  induction l as [|a l IH]; intros H have rest b Hh He Hl Hb.
+  - cbn. now rewrite after_0.
+  - cbn [length flat_map rd_many sumz] in *. rewrite zlen_cons in Hl.
+    pose proof (zlen_nonneg l) as Hz.
+    destruct (H a (or_introl eq_refl)) as [Ha Hrd].
+    assert (Hs : 0 <= sumz cst_ l) by (apply sumz_nonneg; intros x Hx; apply H; now right).
+    rewrite <- app_assoc. rewrite Hrd by (eapply enough_le; [exact Hb|lia]). cbn [ubind].
+    rewrite with_mk_ok by nia.
+    rewrite IH; [|intros x Hx; apply H; now right|lia|lia|nia|apply enough_after; exact Hb].
+    cbn [ubind]. now rewrite after_after.
+Qed.
+
+Lemma loop_count_eq {A} (l : list A) (inp : bytes) : zlen l <= zlen inp -> loop_count (zlen l) inp = length l.
+Proof. intros H. unfold loop_count. rewrite Z.min_l by lia. unfold zlen. apply Nat2Z.id. Qed.
+
+Lemma rd_strs_enc ups have rest b :
+  0 <= have ->
+  2 * (have + zlen ups) * SZ_STRING <= lim ->
+  2 * sumz (fun s => 8 + zlen s) ups + 512 <= lim ->
+  enough b (sumz (fun s => 8 + zlen s) ups) ->
+  rd_many lim (rd_str lim unl) SZ_STRING (length ups) have (flat_map wstr ups ++ rest) b
+  = UOk ups rest (after b (sumz (fun s => 8 + zlen s) ups)).
+Proof.
+  intros Hh Hl Hs Hb.
+  apply rd_many_enc; auto; [|unfold SZ_STRING; lia].
+  intros s Hi. pose proof (zlen_nonneg s). split; [lia|].
+  intros r b' Hb'. apply rd_str_enc; [|exact Hb'].
+  assert (8 + zlen s <= sumz (fun s => 8 + zlen s) ups).
+  { apply (sumz_in (fun s => 8 + zlen s)); auto. intros x _. pose proof (zlen_nonneg x). lia. }
+  lia.
+Qed.
+
+Ltac bud Hb := first [ exact Hb | eapply enough_le; [exact Hb|lia] ].
 
 Theorem rd_cst_marshal : forall k fuel rest b,
-  wf k -> (depth k <= fuel)%nat -> enough b (cost k) ->
-  rd_cst lim fuel (marshal_cst k ++ rest) b = UOk k rest (after b (cost k)).
+  wf k -> (depth k <= fuel)%nat -> 48 * cost k + 512 <= lim -> enough b (cost k) ->
+  rd_cst lim unl fuel (marshal_cst k ++ rest) b = UOk k rest (after b (cost k)).
 Proof.
-  induction k as [z|bits|s|h ks IH] using cst_ind'; intros fuel rest b Hwf Hfuel Hb;
-    (destruct fuel as [|f]; [cbn [depth] in Hfuel; lia|]); unfold cost in *.
+  induction k as [z|bits|s|h ks IH] using cst_ind'; intros fuel rest b Hwf Hfuel Hsz Hb;
+    (destruct fuel as [|f]; [cbn [depth] in Hfuel; lia|]).
   - (* KInt *)
-    cbn [marshal_cst wf] in *. rewrite zlen_cons, zlen_enc in *.
+    unfold cost in *. cbn [marshal_cst wf] in *. rewrite zlen_cons, zlen_enc in *.
     cbn [rd_cst]. change (T_INT :: le_enc 8 z) with (le_enc 1 T_INT ++ le_enc 8 z).
-    rewrite <- app_assoc. change 1 with (Z.of_nat 1) at 1.
-    rewrite rd_fixed_enc by (eapply enough_le; [exact Hb|lia]).
-    change (T_INT mod 256 ^ Z.of_nat 1) with 1. cbv iota beta. change (1 =? T_INT) with true. cbv iota.
-    change 8 with (Z.of_nat 8) at 1.
-    rewrite rd_fixed_enc by (apply enough_after; [exact Hb|lia|lia]).
-    rewrite after_after by (auto; lia).
-    change (256 ^ Z.of_nat 8) with (2 ^ 64). rewrite signed_unsigned; [reflexivity|lia|].
-    change (2 ^ (64 - 1)) with two63. exact Hwf.
+    rewrite <- app_assoc. rewrite rd_fixed1_enc by bud Hb. cbn [ubind].
+    change (T_INT mod 256 ^ Z.of_nat 1 =? T_INT) with true. cbv iota.
+    rewrite rd_fixed8_enc by (apply enough_after; bud Hb). cbn [ubind].
+    rewrite after_after. change (256 ^ Z.of_nat 8) with (2 ^ 64).
+    rewrite signed_unsigned; [reflexivity|lia|]. change (2 ^ (64 - 1)) with two63. exact Hwf.
   - (* KFlt *)
-    cbn [marshal_cst wf] in *. rewrite zlen_cons, zlen_enc in *.
+    unfold cost in *. cbn [marshal_cst wf] in *. rewrite zlen_cons, zlen_enc in *.
     cbn [rd_cst]. change (T_FLOAT :: le_enc 8 bits) with (le_enc 1 T_FLOAT ++ le_enc 8 bits).
-    rewrite <- app_assoc. change 1 with (Z.of_nat 1) at 1.
-    rewrite rd_fixed_enc by (eapply enough_le; [exact Hb|lia]).
-    change (T_FLOAT mod 256 ^ Z.of_nat 1) with 2. cbv iota beta.
-    change (2 =? T_INT) with false. change (2 =? T_FLOAT) with true. cbv iota.
-    change 8 with (Z.of_nat 8) at 1.
-    rewrite rd_fixed_enc by (apply enough_after; [exact Hb|lia|lia]).
-    rewrite after_after by (auto; lia).
-    change (256 ^ Z.of_nat 8) with two64. rewrite Z.mod_small by exact Hwf. reflexivity.
+    rewrite <- app_assoc. rewrite rd_fixed1_enc by bud Hb. cbn [ubind].
+    change (T_FLOAT mod 256 ^ Z.of_nat 1 =? T_INT) with false.
+    change (T_FLOAT mod 256 ^ Z.of_nat 1 =? T_FLOAT) with true. cbv iota.
+    rewrite rd_fixed8_enc by (apply enough_after; bud Hb). cbn [ubind].
+    rewrite after_after. change (256 ^ Z.of_nat 8) with two64. rewrite Z.mod_small by exact Hwf. reflexivity.
   - (* KStr *)
-    cbn [marshal_cst wf] in *. rewrite zlen_cons, wstr_len in *.
+    unfold cost in *. cbn [marshal_cst wf] in *. rewrite zlen_cons, wstr_len in *.
     pose proof (zlen_nonneg s).
     cbn [rd_cst]. change (T_STRING :: wstr s) with (le_enc 1 T_STRING ++ wstr s).
-    rewrite <- app_assoc. change 1 with (Z.of_nat 1) at 1.
-    rewrite rd_fixed_enc by (eapply enough_le; [exact Hb|lia]).
-    change (T_STRING mod 256 ^ Z.of_nat 1) with 4. cbv iota beta.
-    change (4 =? T_INT) with false. change (4 =? T_FLOAT) with false. change (4 =? T_STRING) with true. cbv iota.
-    rewrite rd_str_enc; [|exact Hwf|apply enough_after; [exact Hb|lia|lia]].
-    rewrite after_after by (auto; lia). reflexivity.
+    rewrite <- app_assoc. rewrite rd_fixed1_enc by bud Hb. cbn [ubind].
+    change (T_STRING mod 256 ^ Z.of_nat 1 =? T_INT) with false.
+    change (T_STRING mod 256 ^ Z.of_nat 1 =? T_FLOAT) with false.
+    change (T_STRING mod 256 ^ Z.of_nat 1 =? T_STRING) with true. cbv iota.
+    rewrite rd_str_enc; [|lia|apply enough_after; bud Hb]. cbn [ubind].
+    now rewrite after_after.
   - (* KCode *)
-    cbn [wf] in Hwf. destruct Hwf as (Hh & Hnk & Hks). rewrite wf_all in Hks.
-    destruct Hh. cbn [depth] in Hfuel.
-    pose proof maxAlloc_lt as HM. unfold two63 in HM.
+    rewrite wf_code in Hwf. destruct Hwf as (Hh & Hks). destruct Hh. cbn [depth] in Hfuel.
+    rewrite cost_code in *.
     pose proof (zlen_nonneg (source h)). pose proof (zlen_nonneg (name h)).
     pose proof (zlen_nonneg (ops h)). pose proof (zlen_nonneg (lines h)).
     pose proof (zlen_nonneg ks). pose proof (zlen_nonneg (upnames h)).
-    unfold SZ_OP, SZ_LINE, SZ_VALUE, SZ_STRING in *.
-    (* sizes *)
-    set (cks := zlen (flat_map marshal_cst ks)) in *.
-    set (cup := zlen (flat_map wstr (upnames h))) in *.
-    assert (Hcks : 0 <= cks) by apply zlen_nonneg.
-    assert (Hcup : 0 <= cup) by apply zlen_nonneg.
-    assert (Hcost : zlen (marshal_cst (KCode h ks)) =
-              1 + (8 + zlen (source h)) + (8 + zlen (name h)) + 8 + 4 * zlen (ops h) + 8 + 4 * zlen (lines h) + 8
-              + cks + 14 + cup).
-    { cbn [marshal_cst]. unfold marshal_head1, marshal_head2.
-      rewrite zlen_cons. repeat rewrite zlen_app. repeat rewrite wstr_len. repeat rewrite zlen_enc.
-      repeat rewrite flat_map_len4. fold cks. fold cup. lia. }
-    rewrite Hcost in *. clear Hcost.
+    set (cks := sumz cost ks) in *.
+    set (cup := sumz (fun s => 8 + zlen s) (upnames h)) in *.
+    assert (Hcks : zlen ks <= cks) by (apply sumz_ge_len; intros; apply cost_pos).
+    assert (Hcup : zlen (upnames h) <= cup).
+    { apply sumz_ge_len. intros x _. pose proof (zlen_nonneg x). lia. }
+    assert (Hcup8 : 8 * zlen (upnames h) <= cup).
+    { unfold cup. clear. induction (upnames h) as [|x l IHl]; cbn [sumz]; [unfold zlen; cbn; lia|].
+      rewrite zlen_cons. pose proof (zlen_nonneg x). lia. }
+    assert (HM : maxAlloc < two63) by reflexivity. unfold two63 in HM.
     cbn [marshal_cst rd_cst]. unfold marshal_head1, marshal_head2.
     change (T_CODE :: ?x) with (le_enc 1 T_CODE ++ x).
     repeat rewrite <- app_assoc.
-    change 1 with (Z.of_nat 1) at 1.
-    rewrite rd_fixed_enc by (eapply enough_le; [exact Hb|lia]).
-    change (T_CODE mod 256 ^ Z.of_nat 1) with 5. cbv iota beta.
-    change (5 =? T_INT) with false. change (5 =? T_FLOAT) with false.
-    change (5 =? T_STRING) with false. change (5 =? T_CODE) with true. cbv iota.
-    change (Z.of_nat 1) with 1.
+    rewrite rd_fixed1_enc by bud Hb. cbn [ubind].
+    change (T_CODE mod 256 ^ Z.of_nat 1 =? T_INT) with false.
+    change (T_CODE mod 256 ^ Z.of_nat 1 =? T_FLOAT) with false.
+    change (T_CODE mod 256 ^ Z.of_nat 1 =? T_STRING) with false.
+    change (T_CODE mod 256 ^ Z.of_nat 1 =? T_CODE) with true. cbv iota.
     unfold rd_code.
-    (* header *)
-    rewrite consume_ok by (bud Hb).
-    rewrite after_after by (try lia; bud Hb).
-    rewrite rd_str_enc; [|assumption|bud Hb].
-    rewrite after_after by (try lia; bud Hb).
-    rewrite rd_str_enc; [|assumption|bud Hb].
-    rewrite after_after by (try lia; bud Hb).
-    rewrite rd_raw8_enc. rewrite len64 by (unfold two63; lia).
-    unfold SZ_OP. rewrite mk_ok by lia.
-    unfold u64. rewrite (Z.mod_small (zlen (ops h))) by (unfold two64; lia).
-    rewrite Z.mod_small by (unfold two64; lia).
-    rewrite consume_ok by (bud Hb).
-    rewrite after_after by (try lia; bud Hb).
-    rewrite readfull_app by (rewrite flat_map_len4; lia).
-    rewrite rd_raw8_enc. rewrite len64 by (unfold two63; lia).
-    unfold SZ_LINE. rewrite mk_ok by lia.
-    rewrite (Z.mod_small (zlen (lines h))) by (unfold two64; lia).
-    rewrite Z.mod_small by (unfold two64; lia).
-    rewrite consume_ok by (bud Hb).
-    rewrite after_after by (try lia; bud Hb).
-    rewrite readfull_app by (rewrite flat_map_len4; lia).
-    rewrite rd_raw8_enc. rewrite len64 by (unfold two63; lia).
-    unfold SZ_VALUE. rewrite mk_ok by lia.
-    unfold zlen at 1. rewrite Nat2Z.id.
-    (* constants *)
-    rewrite (rd_many_enc (rd_cst lim f) marshal_cst (fun k => zlen (marshal_cst k))).
-    2:{ intros k Hk. split; [apply zlen_nonneg|]. intros r b' Hb'.
-        apply IH; [exact Hk|apply Hks; exact Hk| |exact Hb'].
+    rewrite consume_ok by (apply enough_after; bud Hb). rewrite after_after.
+    rewrite rd_str_enc; [|lia|apply enough_after; bud Hb]. cbn [ubind]. rewrite after_after.
+    rewrite rd_str_enc; [|lia|apply enough_after; bud Hb]. cbn [ubind]. rewrite after_after.
+    rewrite rd_raw8_enc. cbn [ubind]. rewrite len64 by (unfold two63; lia).
+    rewrite rd_words_enc; [|lia|apply enough_after; bud Hb]. cbn [ubind]. rewrite after_after.
+    rewrite rd_fixed8_enc by (apply enough_after; bud Hb). cbn [ubind]. rewrite after_after.
+    rewrite len64 by (unfold two63; lia).
+    rewrite rd_words_enc; [|lia|apply enough_after; bud Hb]. cbn [ubind]. rewrite after_after.
+    rewrite rd_fixed8_enc by (apply enough_after; bud Hb). cbn [ubind]. rewrite after_after.
+    rewrite len64 by (unfold two63; lia).
+    destruct (zlen ks <? 0) eqn:E0; [lia|].
+    rewrite loop_count_eq.
+    2:{ rewrite zlen_app, zlen_flat_map. fold cost. fold cks.
+        match goal with |- _ <= _ + zlen ?r => pose proof (zlen_nonneg r) end. lia. }
+    rewrite (rd_many_enc (rd_cst lim unl f) marshal_cst cost).
+    2:{ intros k Hk. pose proof (cost_pos k). split; [lia|]. intros r b' Hb'.
+        assert (cost k <= cks) by (apply (sumz_in cost); auto; intros x _; pose proof (cost_pos x); lia).
+        apply IH; [exact Hk|apply Hks; exact Hk| |lia|exact Hb'].
         pose proof (depth_in k ks Hk). lia. }
-    2:{ rewrite <- zlen_flat_map. fold cks. bud Hb. }
-    rewrite <- zlen_flat_map. fold cks.
-    rewrite after_after by (try lia; bud Hb).
-    (* tail *)
-    rewrite consume_ok by (bud Hb).
-    rewrite after_after by (try lia; bud Hb).
-    rewrite rd_raw2_enc.
-    rewrite rd_raw2_enc.
-    rewrite rd_raw2_enc.
-    rewrite rd_raw8_enc. rewrite len64 by (unfold two63; lia).
-    unfold SZ_STRING. rewrite mk_ok by lia.
-    unfold zlen at 1. rewrite Nat2Z.id.
-    rewrite rd_strs_enc; [|assumption|fold cup; bud Hb].
-    fold cup.
-    rewrite after_after by (try lia; bud Hb).
-    rewrite chunks4_enc, map_mod_u32 by assumption.
-    rewrite chunks4_enc, map_signed_i32 by assumption.
+    2:lia. 2:unfold SZ_VALUE; lia. 2:unfold SZ_VALUE; lia.
+    2:{ fold cks. apply enough_after; bud Hb. }
+    cbn [ubind]. fold cks. rewrite after_after.
+    rewrite consume_ok by (apply enough_after; bud Hb). rewrite after_after.
+    rewrite rd_raw2_enc. cbn [ubind]. rewrite rd_raw2_enc. cbn [ubind]. rewrite rd_raw2_enc. cbn [ubind].
+    rewrite rd_raw8_enc. cbn [ubind]. rewrite len64 by (unfold two63; lia).
     change (256 ^ Z.of_nat 2) with (2 ^ 16).
-    rewrite !signed_unsigned by (try lia; assumption).
+    unfold cnt_ok in *.
+    rewrite !signed_unsigned by (try lia; change (2 ^ (16 - 1)) with (2 ^ 15); lia).
+    destruct ((upvalueCount h <? 0) || (regCount h <? 0) || (cellCount h <? 0)) eqn:E1; [lia|].
+    destruct (zlen (upnames h) <? 0) eqn:E2; [lia|].
+    rewrite loop_count_eq.
+    2:{ rewrite zlen_app, zlen_flat_map.
+        assert (E : sumz (fun a => zlen (wstr a)) (upnames h) = cup).
+        { unfold cup. clear. induction (upnames h) as [|x l IHl]; cbn [sumz]; [reflexivity|]. now rewrite wstr_len, IHl. }
+        rewrite E. pose proof (zlen_nonneg rest). lia. }
+    rewrite rd_strs_enc; [|lia|unfold SZ_STRING, bytes in *; lia|fold cup; lia|fold cup; apply enough_after; bud Hb].
+    cbn [ubind]. fold cup. rewrite after_after.
+    destruct (Z.of_nat (length ks) <? zlen ks) eqn:E3; [unfold zlen in E3; lia|].
+    destruct (Z.of_nat (length (upnames h)) <? zlen (upnames h)) eqn:E4; [unfold zlen in E4; lia|].
+    rewrite map_mod_u32 by assumption. rewrite map_signed_i32 by assumption.
     destruct h as [a1 a2 a3 a4 a5 a6 a7 a8]; cbn [source name ops lines upvalueCount regCount cellCount upnames].
     f_equal. f_equal. lia.
 Qed.
 
 End RoundTrip.
+
+(* ------------------------------------------------------------------ *)
+(* every byte string, every budget: the reader never panics, never asks  *)
+(* for more memory than a constant times the input, never runs out of    *)
+(* fuel                                                                  *)
+
+Definition sf {A} (strict : bool) (n0 : Z) (r : ures A) : Prop :=
+  match r with
+  | UOk _ rest _ => zlen rest + (if strict then 1 else 0) <= n0
+  | UErr _ _ | UBudget => True
+  | UPanic | UFatal _ | UOutOfFuel => False
+  end.
+
+Lemma sf_weaken {A} s n0 n1 (r : ures A) : sf s n0 r -> n0 <= n1 -> sf false n1 r.
+Proof. destruct r; cbn; auto. destruct s; lia. Qed.
+
+Lemma sf_bind {A B} s n0 (r : ures A) (f : A -> bytes -> Z -> ures B) :
+  sf false n0 r -> (forall a i b, r = UOk a i b -> sf s n0 (f a i b)) -> sf s n0 (ubind r f).
+Proof. destruct r; cbn; auto; try tauto. Qed.
+
+Lemma take_len inp n a rest : take inp n = Some (a, rest) -> 0 <= n -> zlen a = n /\ zlen inp = n + zlen rest.
+Proof.
+  revert n a rest. induction inp as [|x inp IH]; intros n a rest H Hn; cbn [take] in H.
+  - destruct (n <=? 0) eqn:E; [|discriminate]. inversion H; subst. unfold zlen; cbn. lia.
+  - destruct (n <=? 0) eqn:E.
+    + inversion H; subst. unfold zlen; cbn [length]. lia.
+    + destruct (take inp (n - 1)) as [[a' r']|] eqn:T; [|discriminate]. inversion H; subst.
+      destruct (IH _ _ _ T) as [H1 H2]; [lia|]. rewrite !zlen_cons. lia.
+Qed.
+
+Section Safe.
+Variable lim : Z.
+Variable unl : bool.
+Variable N : Z.
+Hypothesis HN : 48 * N + 66048 <= lim <= maxAlloc.
+
+Lemma with_mk_sf {A} s n0 n elt (k : ures A) :
+  0 <= n -> 0 <= elt -> n * elt <= lim -> sf s n0 k -> sf s n0 (with_mk lim n elt k).
+Proof. intros. unfold with_mk. rewrite mk_ok by lia. assumption. Qed.
+
+Lemma rd_fixed_sf n inp b : 1 <= n -> sf true (zlen inp) (rd_fixed unl n inp b).
+Proof.
+  intros Hn. unfold rd_fixed. destruct (consume unl b n); [|exact I].
+  unfold readfull. destruct (take inp n) as [[a rest]|] eqn:T; [|exact I].
+  cbn. destruct (take_len _ _ _ _ T); lia.
+Qed.
+
+Lemma rd_raw_sf n inp b : 1 <= n -> sf true (zlen inp) (rd_raw n inp b).
+Proof.
+  intros Hn. unfold rd_raw, readfull. destruct (take inp n) as [[a rest]|] eqn:T; [|exact I].
+  cbn. destruct (take_len _ _ _ _ T); lia.
+Qed.
+
+(* on success the bytes returned are n*item many and were in the input *)
+Lemma rd_bytes_sf n item inp b : 1 <= item <= 4 -> zlen inp <= N ->
+  sf false (zlen inp) (rd_bytes lim unl n item inp b) /\
+  (forall a rest b', rd_bytes lim unl n item inp b = UOk a rest b' -> 0 <= n /\ zlen a = n * item /\ n * item <= zlen inp).
+Proof.
+  intros Hi Hl. unfold rd_bytes. pose proof (zlen_nonneg inp) as Hz.
+  destruct (n <? 0) eqn:E1; [split; [exact I|discriminate]|].
+  destruct (maxInt64 / item <? n) eqn:E2; [split; [exact I|discriminate]|].
+  destruct (consume unl b (n * item)) as [b1|]; [|split; [exact I|discriminate]].
+  assert (0 <= n * item) by nia.
+  unfold readfull.
+  destruct (n * item <=? maxEagerRead) eqn:E3.
+  - unfold maxEagerRead in E3.
+    destruct (take inp (n * item)) as [[a rest]|] eqn:T.
+    + destruct (take_len _ _ _ _ T) as [T1 T2]; [lia|]. pose proof (zlen_nonneg rest).
+      split; [apply with_mk_sf; try lia; cbn; lia|].
+      unfold with_mk. rewrite mk_ok by lia. intros ? ? ? X; inversion X; subst. lia.
+    + split; [apply with_mk_sf; try lia; exact I|].
+      unfold with_mk. rewrite mk_ok by lia. discriminate.
+  - destruct (take inp (n * item)) as [[a rest]|] eqn:T.
+    + destruct (take_len _ _ _ _ T) as [T1 T2]; [lia|]. pose proof (zlen_nonneg rest).
+      split; [apply with_mk_sf; try lia; cbn; lia|].
+      unfold with_mk. rewrite mk_ok by lia. intros ? ? ? X; inversion X; subst. lia.
+    + split; [apply with_mk_sf; try lia; exact I|].
+      unfold with_mk. rewrite mk_ok by lia. discriminate.
+Qed.
+
+Lemma rd_str_sf inp b : zlen inp <= N -> sf true (zlen inp) (rd_str lim unl inp b).
+Proof.
+  intros Hl. unfold rd_str.
+  pose proof (rd_fixed_sf 8 inp b) as F. destruct (rd_fixed unl 8 inp b) as [v i1 b1| | | | |]; cbn [ubind sf] in *; auto; try (apply F; lia).
+  specialize (F ltac:(lia)).
+  destruct (rd_bytes_sf (signed 64 v) 1 i1 b1) as [S _]; [lia|lia|].
+  destruct (rd_bytes lim unl (signed 64 v) 1 i1 b1); cbn [sf] in *; auto. lia.
+Qed.
+
+Lemma rd_words_sf n inp b : zlen inp <= N -> sf false (zlen inp) (rd_words lim unl n inp b).
+Proof.
+  intros Hl. unfold rd_words.
+  destruct (rd_bytes_sf n 4 inp b) as [S L]; [lia|lia|].
+  destruct (rd_bytes lim unl n 4 inp b) as [raw i1 b1| | | | |] eqn:E; cbn [ubind sf] in *; auto.
+  destruct (L _ _ _ eq_refl) as (L1 & L2 & L3).
+  apply with_mk_sf; try lia. exact S.
+Qed.
+
+Lemma rd_many_sf {A} (rd : bytes -> Z -> ures A) elt M :
+  0 <= elt <= 24 ->
+  (forall inp b, zlen inp <= M -> sf true (zlen inp) (rd inp b)) ->
+  forall n have inp b, 0 <= have -> zlen inp <= M -> have + zlen inp <= N ->
+  match rd_many lim rd elt n have inp b with
+  | UOk l rest _ => zlen rest + Z.of_nat n <= zlen inp /\ length l = n
+  | UErr _ _ | UBudget => True
+  | _ => False
+  end.
+Proof.
+  intros He Hrd. induction n as [|n IH]; intros have inp b Hh Hm Hl; cbn [rd_many].
+  - split; [lia|reflexivity].
+  - pose proof (Hrd inp b Hm) as S.
+    destruct (rd inp b) as [a i1 b1| | | | |]; cbn [ubind sf] in *; auto.
+    pose proof (zlen_nonneg i1).
+    unfold with_mk. rewrite mk_ok by nia.
+    specialize (IH (have + 1) i1 b1 ltac:(lia) ltac:(lia) ltac:(lia)).
+    destruct (rd_many lim rd elt n (have + 1) i1 b1); cbn [ubind]; auto.
+    destruct IH as [I1 I2]. split; [lia|cbn [length]; lia].
+Qed.
+
+Lemma loop_count_nonneg_case {A} n inp (l : list A) (rest : bytes) :
+  0 <= n -> zlen rest + Z.of_nat (loop_count n inp) <= zlen inp -> length l = loop_count n inp ->
+  (Z.of_nat (length l) <? n) = false.
+Proof.
+  intros Hn H1 H2. unfold loop_count in *. pose proof (zlen_nonneg rest). pose proof (zlen_nonneg inp).
+  destruct (Z_le_dec n (zlen inp + 1)).
+  - rewrite Z.min_l in * by lia. rewrite H2. rewrite Z2Nat.id by lia. lia.
+  - rewrite Z.min_r in * by lia. rewrite Z2Nat.id in H1 by lia. lia.
+Qed.
+
+Lemma rd_code_sf (rdk : bytes -> Z -> ures cst) inp b :
+  zlen inp <= N ->
+  (forall i b', zlen i <= zlen inp -> sf true (zlen i) (rdk i b')) ->
+  sf false (zlen inp) (rd_code lim unl rdk inp b).
+Proof.
+  intros Hl Hk. unfold rd_code. set (n0 := zlen inp).
+  destruct (consume unl b 8) as [b0|]; [|exact I].
+  apply sf_bind; [eapply sf_weaken; [apply rd_str_sf; lia|lia]|]. intros src i1 b1 E1.
+  pose proof (rd_str_sf inp b0 Hl) as S1. rewrite E1 in S1. cbn [sf] in S1.
+  apply sf_bind; [eapply sf_weaken; [apply rd_str_sf; lia|lia]|]. intros nm i2 b2 E2.
+  pose proof (rd_str_sf i1 b1 ltac:(lia)) as S2. rewrite E2 in S2. cbn [sf] in S2.
+  apply sf_bind; [eapply sf_weaken; [apply rd_raw_sf; lia|lia]|]. intros v3 i3 b3 E3.
+  pose proof (rd_raw_sf 8 i2 b2 ltac:(lia)) as S3. rewrite E3 in S3. cbn [sf] in S3.
+  apply sf_bind; [eapply sf_weaken; [apply rd_words_sf; lia|lia]|]. intros opw i4 b4 E4.
+  pose proof (rd_words_sf (signed 64 v3) i3 b3 ltac:(lia)) as S4. rewrite E4 in S4. cbn [sf] in S4.
+  apply sf_bind; [eapply sf_weaken; [apply rd_fixed_sf; lia|lia]|]. intros v5 i5 b5 E5.
+  pose proof (rd_fixed_sf 8 i4 b4 ltac:(lia)) as S5. rewrite E5 in S5. cbn [sf] in S5.
+  apply sf_bind; [eapply sf_weaken; [apply rd_words_sf; lia|lia]|]. intros lnw i6 b6 E6.
+  pose proof (rd_words_sf (signed 64 v5) i5 b5 ltac:(lia)) as S6. rewrite E6 in S6. cbn [sf] in S6.
+  apply sf_bind; [eapply sf_weaken; [apply rd_fixed_sf; lia|lia]|]. intros v7 i7 b7 E7.
+  pose proof (rd_fixed_sf 8 i6 b6 ltac:(lia)) as S7. rewrite E7 in S7. cbn [sf] in S7.
+  cbv zeta. destruct (signed 64 v7 <? 0) eqn:N7; [exact I|].
+  pose proof (zlen_nonneg i7) as Z7.
+  pose proof (rd_many_sf rdk SZ_VALUE (zlen i7) ltac:(unfold SZ_VALUE; lia)
+                (fun i b' H => Hk i b' ltac:(lia)) (loop_count (signed 64 v7) i7) 0 i7 b7
+                ltac:(lia) ltac:(lia) ltac:(lia)) as M8.
+  destruct (rd_many lim rdk SZ_VALUE (loop_count (signed 64 v7) i7) 0 i7 b7) as [ks i8 b8| | | | |] eqn:E8;
+    cbn [ubind sf]; auto.
+  destruct M8 as [M8a M8b].
+  assert (S8 : zlen i8 <= zlen i7) by lia.
+  destruct (consume unl b8 (2 + 2 + 2 + 8)) as [b9|]; [|exact I].
+  apply sf_bind; [eapply sf_weaken; [apply rd_raw_sf; lia|lia]|]. intros uc i9 b10 E9.
+  pose proof (rd_raw_sf 2 i8 b9 ltac:(lia)) as S9. rewrite E9 in S9. cbn [sf] in S9.
+  apply sf_bind; [eapply sf_weaken; [apply rd_raw_sf; lia|lia]|]. intros rc i10 b11 E10.
+  pose proof (rd_raw_sf 2 i9 b10 ltac:(lia)) as S10. rewrite E10 in S10. cbn [sf] in S10.
+  apply sf_bind; [eapply sf_weaken; [apply rd_raw_sf; lia|lia]|]. intros cc i11 b12 E11.
+  pose proof (rd_raw_sf 2 i10 b11 ltac:(lia)) as S11. rewrite E11 in S11. cbn [sf] in S11.
+  apply sf_bind; [eapply sf_weaken; [apply rd_raw_sf; lia|lia]|]. intros v12 i12 b13 E12.
+  pose proof (rd_raw_sf 8 i11 b12 ltac:(lia)) as S12. rewrite E12 in S12. cbn [sf] in S12.
+  destruct ((signed 16 uc <? 0) || (signed 16 rc <? 0) || (signed 16 cc <? 0)); [exact I|].
+  destruct (signed 64 v12 <? 0) eqn:N12; [exact I|].
+  pose proof (zlen_nonneg i12) as Z12.
+  pose proof (rd_many_sf (rd_str lim unl) SZ_STRING (zlen i12) ltac:(unfold SZ_STRING; lia)
+                (fun i b' H => rd_str_sf i b' ltac:(lia)) (loop_count (signed 64 v12) i12) 0 i12 b13
+                ltac:(lia) ltac:(lia) ltac:(lia)) as M13.
+  destruct (rd_many lim (rd_str lim unl) SZ_STRING (loop_count (signed 64 v12) i12) 0 i12 b13) as [ups i13 b14| | | | |] eqn:E13;
+    cbn [ubind sf]; auto.
+  destruct M13 as [M13a M13b].
+  rewrite (loop_count_nonneg_case (signed 64 v7) i7 ks i8) by (auto; lia).
+  rewrite (loop_count_nonneg_case (signed 64 v12) i12 ups i13) by (auto; lia).
+  cbn [sf]. pose proof (zlen_nonneg i13). lia.
+Qed.
+
+Lemma rd_cst_sf : forall fuel inp b,
+  zlen inp <= N -> zlen inp < Z.of_nat fuel -> sf true (zlen inp) (rd_cst lim unl fuel inp b).
+Proof.
+  induction fuel as [|f IH]; intros inp b Hl Hf; [pose proof (zlen_nonneg inp); lia|].
+  cbn [rd_cst].
+  pose proof (rd_fixed_sf 1 inp b ltac:(lia)) as S1.
+  destruct (rd_fixed unl 1 inp b) as [tp i1 b1| | | | |]; cbn [ubind sf] in *; auto.
+  destruct (tp =? T_INT).
+  { pose proof (rd_fixed_sf 8 i1 b1 ltac:(lia)) as S2.
+    destruct (rd_fixed unl 8 i1 b1); cbn [ubind sf] in *; auto. lia. }
+  destruct (tp =? T_FLOAT).
+  { pose proof (rd_fixed_sf 8 i1 b1 ltac:(lia)) as S2.
+    destruct (rd_fixed unl 8 i1 b1); cbn [ubind sf] in *; auto. lia. }
+  destruct (tp =? T_STRING).
+  { pose proof (rd_str_sf i1 b1 ltac:(lia)) as S2.
+    destruct (rd_str lim unl i1 b1); cbn [ubind sf] in *; auto. lia. }
+  destruct (tp =? T_CODE); [|exact I].
+  pose proof (rd_code_sf (rd_cst lim unl f) i1 b1 ltac:(lia)) as S2.
+  assert (Hk : forall i b', zlen i <= zlen i1 -> sf true (zlen i) (rd_cst lim unl f i b')).
+  { intros i b' Hi. apply IH; lia. }
+  specialize (S2 Hk).
+  destruct (rd_code lim unl (rd_cst lim unl f) i1 b1); cbn [sf] in *; auto. lia.
+Qed.
+
+End Safe.
+
+(* UnmarshalConst on ANY byte string with ANY budget: it returns a value or an error
+   or stops on the budget; it never raises a Go panic, and no single allocation exceeds
+   48 bytes per input byte plus 66048 — so with that much memory it never dies. *)
+Theorem unmarshal_total_no_panic : forall lim budget inp,
+  48 * zlen inp + 66048 <= lim <= maxAlloc ->
+  match unmarshal lim budget inp with
+  | UOk _ _ _ | UErr _ _ | UBudget => True
+  | UPanic | UFatal _ | UOutOfFuel => False
+  end.
+Proof.
+  intros lim budget inp H. unfold unmarshal.
+  destruct inp as [|x0 [|x1 [|x2 inp]]]; try exact I.
+  destruct ((x0 =? 6) && (x1 =? 0) && (x2 =? 4)); [|exact I].
+  rewrite !zlen_cons in H. pose proof (zlen_nonneg inp).
+  pose proof (rd_cst_sf lim (budget =? 0) (zlen inp) ltac:(lia) (S (length inp)) inp budget
+                ltac:(lia) ltac:(unfold zlen; lia)) as HS.
+  destruct (rd_cst lim (budget =? 0) (S (length inp)) inp budget); cbn [sf] in HS; auto.
+Qed.
+
+Corollary go_unmarshal_never_crashes : forall lim budget inp,
+  48 * zlen inp + 66048 <= lim <= maxAlloc ->
+  match go_unmarshal lim budget inp with
+  | GVal _ _ | GErr _ _ => True
+  | GNil u => u = budget          (* only the budget can yield "nil, no error" *)
+  | GCrash _ | GOutOfFuel => False
+  end.
+Proof.
+  intros lim budget inp H. pose proof (unmarshal_total_no_panic lim budget inp H) as U.
+  unfold go_unmarshal. destruct (unmarshal lim budget inp); try exact I; try reflexivity; try contradiction.
+Qed.
 
 (* ------------------------------------------------------------------ *)
 (* top level                                                            *)
@@ -465,85 +729,168 @@ Proof.
   lia.
 Qed.
 
+(* budget left after reading n bytes / budget that suffices for n bytes *)
+Definition left_after (budget n : Z) : Z := if budget =? 0 then 0 else budget - n.
+Definition suffices (budget n : Z) : Prop := budget = 0 \/ n <= budget.
+
 Theorem unmarshal_marshal : forall lim k rest b,
-  0 <= lim <= maxAlloc -> wf lim k -> enough b (cost k) ->
-  unmarshal lim b (marshal k ++ rest) = UOk k rest (after b (cost k)).
+  wf k -> 48 * cost k + 66048 <= lim <= maxAlloc -> suffices b (cost k) ->
+  unmarshal lim b (marshal k ++ rest) = UOk k rest (left_after b (cost k)).
 Proof.
-  intros lim k rest b Hl Hwf Hb. unfold marshal, marshalPrefix, unmarshal. cbn [app].
-  apply rd_cst_marshal; auto.
-  pose proof (depth_le_len k). rewrite app_length. lia.
+  intros lim k rest b Hwf Hl Hb. unfold marshal, marshalPrefix, unmarshal. cbn [app].
+  change ((6 =? 6) && (0 =? 0) && (4 =? 4)) with true. cbv iota.
+  pose proof (cost_pos k) as Hc.
+  rewrite (rd_cst_marshal lim (b =? 0) ltac:(lia) k _ rest b Hwf).
+  - unfold after, left_after. destruct Hb as [->|Hb]; [reflexivity|].
+    destruct (b =? 0) eqn:E; [|reflexivity]. pose proof (cost_pos k). lia.
+  - pose proof (depth_le_len k). rewrite app_length. lia.
+  - lia.
+  - unfold enough. destruct Hb as [->|Hb]; [now left|].
+    destruct (b =? 0) eqn:E; [now left|now right].
 Qed.
 
 Corollary unmarshal_marshal_unlimited : forall lim k rest,
-  0 <= lim <= maxAlloc -> wf lim k -> unmarshal lim 0 (marshal k ++ rest) = UOk k rest 0.
+  wf k -> 48 * cost k + 66048 <= lim <= maxAlloc -> unmarshal lim 0 (marshal k ++ rest) = UOk k rest 0.
 Proof. intros. rewrite unmarshal_marshal by (auto; now left). reflexivity. Qed.
 
-Theorem marshal_injective : forall lim k1 k2,
-  0 <= lim <= maxAlloc -> wf lim k1 -> wf lim k2 -> marshal k1 = marshal k2 -> k1 = k2.
+(* sizes: an encoding of c bytes can be read back when 48 c + 66048 bytes fit in one allocation *)
+Definition fits (k : cst) : Prop := 48 * cost k + 66048 <= maxAlloc.
+
+Theorem marshal_injective : forall k1 k2, wf k1 -> wf k2 -> fits k1 -> marshal k1 = marshal k2 -> k1 = k2.
 Proof.
-  intros lim k1 k2 Hl H1 H2 E.
-  pose proof (unmarshal_marshal_unlimited lim k1 [] Hl H1) as U1.
-  pose proof (unmarshal_marshal_unlimited lim k2 [] Hl H2) as U2.
+  intros k1 k2 H1 H2 F E. unfold fits in F.
+  assert (C : cost k1 = cost k2).
+  { unfold cost. unfold marshal in E. apply app_inv_head in E. now rewrite E. }
+  pose proof (unmarshal_marshal_unlimited maxAlloc k1 [] H1 ltac:(lia)) as U1.
+  pose proof (unmarshal_marshal_unlimited maxAlloc k2 [] H2 ltac:(lia)) as U2.
   rewrite E in U1. rewrite U1 in U2. now inversion U2.
 Qed.
 
 (* prefix-freeness: what follows a marshalled constant does not matter *)
-Theorem marshal_prefix_free : forall lim k1 k2 r1 r2,
-  0 <= lim <= maxAlloc -> wf lim k1 -> wf lim k2 -> marshal k1 ++ r1 = marshal k2 ++ r2 -> k1 = k2 /\ r1 = r2.
+Theorem marshal_prefix_free : forall k1 k2 r1 r2,
+  wf k1 -> wf k2 -> fits k1 -> fits k2 -> marshal k1 ++ r1 = marshal k2 ++ r2 -> k1 = k2 /\ r1 = r2.
 Proof.
-  intros lim k1 k2 r1 r2 Hl H1 H2 E.
-  pose proof (unmarshal_marshal_unlimited lim k1 r1 Hl H1) as U1.
-  pose proof (unmarshal_marshal_unlimited lim k2 r2 Hl H2) as U2.
+  intros k1 k2 r1 r2 H1 H2 F1 F2 E. unfold fits in *.
+  pose proof (unmarshal_marshal_unlimited maxAlloc k1 r1 H1 ltac:(lia)) as U1.
+  pose proof (unmarshal_marshal_unlimited maxAlloc k2 r2 H2 ltac:(lia)) as U2.
   rewrite E in U1. rewrite U1 in U2. now inversion U2.
 Qed.
 
 (* load(string-with-a-dump) gives back the code, with UpvalueCount cells *)
 Theorem load_marshal : forall lim h ks,
-  0 <= lim <= maxAlloc -> wf lim (KCode h ks) -> 0 <= upvalueCount h ->
+  wf (KCode h ks) -> 48 * cost (KCode h ks) + 66048 <= lim <= maxAlloc ->
   load_binary lim 0 (marshal (KCode h ks)) = LFun (KCode h ks) (upvalueCount h).
 Proof.
-  intros lim h ks Hl Hwf Hu. unfold load_binary, go_unmarshal.
+  intros lim h ks Hwf Hl. unfold load_binary, go_unmarshal.
   rewrite <- (app_nil_r (marshal (KCode h ks))).
   rewrite unmarshal_marshal_unlimited by auto.
+  rewrite wf_code in Hwf. destruct Hwf as [[_ _ [Hu _] _ _] _].
   destruct (upvalueCount h <? 0) eqn:E; [lia|reflexivity].
+Qed.
+
+(* a code that comes out of the reader has non-negative counts *)
+Lemma rd_code_counts lim unl rdk inp b h ks rest b' :
+  rd_code lim unl rdk inp b = UOk (KCode h ks) rest b' ->
+  0 <= upvalueCount h /\ 0 <= regCount h /\ 0 <= cellCount h.
+Proof.
+  unfold rd_code. destruct (consume unl b 8); [|discriminate].
+  repeat match goal with
+  | |- ubind ?r _ = _ -> _ => destruct r; cbn [ubind]; try discriminate
+  | |- (let _ := _ in _) = _ -> _ => cbv zeta
+  | |- (if ?c then _ else _) = _ -> _ => destruct c eqn:?; try discriminate
+  | |- match consume ?u ?x ?y with _ => _ end = _ -> _ => destruct (consume u x y); try discriminate
+  end.
+  intros X. inversion X; subst. cbn [upvalueCount regCount cellCount]. lia.
+Qed.
+
+Lemma rd_cst_counts lim unl fuel inp b h ks rest b' :
+  rd_cst lim unl fuel inp b = UOk (KCode h ks) rest b' ->
+  0 <= upvalueCount h /\ 0 <= regCount h /\ 0 <= cellCount h.
+Proof.
+  destruct fuel as [|f]; cbn [rd_cst]; [discriminate|].
+  destruct (rd_fixed unl 1 inp b) as [tp i1 b1| | | | |]; cbn [ubind]; try discriminate.
+  destruct (tp =? T_INT); [destruct (rd_fixed unl 8 i1 b1); cbn [ubind]; discriminate|].
+  destruct (tp =? T_FLOAT); [destruct (rd_fixed unl 8 i1 b1); cbn [ubind]; discriminate|].
+  destruct (tp =? T_STRING); [destruct (rd_str lim unl i1 b1); cbn [ubind]; discriminate|].
+  destruct (tp =? T_CODE); [|discriminate].
+  apply rd_code_counts.
+Qed.
+
+(* load(s, name, "b") on ANY byte string: a function, or an ordinary error; never a Go
+   panic (NewClosure always gets a non-negative count), never a fatal allocation. *)
+Theorem load_no_panic : forall lim budget inp,
+  48 * zlen inp + 66048 <= lim <= maxAlloc ->
+  match load_binary lim budget inp with
+  | LFun (KCode h _) nup => nup = upvalueCount h /\ 0 <= nup
+  | LFun _ _ => False
+  | LNotFunction | LErr _ => True
+  | LPanic | LCrash _ | LOutOfFuel => False
+  end.
+Proof.
+  intros lim budget inp H. pose proof (unmarshal_total_no_panic lim budget inp H) as U.
+  unfold load_binary, go_unmarshal.
+  destruct (unmarshal lim budget inp) as [k rest b'| | | | |] eqn:E; auto.
+  destruct k as [z|bits|s|h ks]; auto.
+  assert (C : 0 <= upvalueCount h).
+  { unfold unmarshal in E. destruct inp as [|x0 [|x1 [|x2 inp]]]; try discriminate.
+    destruct ((x0 =? 6) && (x1 =? 0) && (x2 =? 4)); [|discriminate].
+    apply rd_cst_counts in E. lia. }
+  destruct (upvalueCount h <? 0) eqn:F; [lia|]. split; [reflexivity|exact C].
 Qed.
 
 (* The hypotheses are satisfiable: a code with a nested code, every constant type. *)
 Definition ex_head : chead := mkHead [99; 0; 255] [102] [1610678273; 1644232704] [1; -1] 1 3 0 [[95; 69; 78; 86]].
 Definition ex_code : cst :=
   KCode ex_head [KInt (-5); KFlt 9218868437227405312; KStr [0; 1; 2]; KCode ex_head [KInt (two63 - 1)]].
-Example ex_code_wf : wf 1048576 ex_code.
+Example ex_code_wf : wf ex_code /\ fits ex_code.
 Proof.
-  assert (W : wf_head 1048576 ex_head).
-  { constructor; cbn; repeat constructor; unfold u32_ok, i32_ok, i16_ok, zlen; cbn; lia. }
-  cbn [wf ex_code]. repeat split; try exact W; unfold zlen, two63, two64, SZ_VALUE; cbn; try lia; try discriminate; try reflexivity;
-    repeat constructor; unfold u32_ok, i32_ok, zlen; cbn; lia.
+  assert (W : wf_head ex_head).
+  { constructor; cbn; repeat constructor; unfold u32_ok, i32_ok, cnt_ok; cbn; lia. }
+  split.
+  - cbn [wf ex_code]. split; [exact W|]. split; [unfold two63; lia|]. split; [unfold two64; lia|].
+    split; [exact I|]. split; [|exact I]. split; [exact W|]. split; [unfold two63; lia|exact I].
+  - unfold fits. vm_compute. discriminate.
 Qed.
-Example ex_code_roundtrip : unmarshal 1048576 0 (marshal ex_code ++ [7; 7]) = UOk ex_code [7; 7] 0.
+Example ex_code_roundtrip : unmarshal 1048576 1000 (marshal ex_code ++ [7; 7]) = UOk ex_code [7; 7] (1000 - cost ex_code).
+Proof. vm_compute. reflexivity. Qed.
+
+(* the two streams that used to kill the process / panic are now ordinary errors *)
+Definition crash_witness : bytes := [6; 0; 4; 5] ++ repeat 0 16 ++ le_enc 8 (2 ^ 40).
+Definition upvalue_witness : bytes := [6; 0; 4; 5] ++ repeat 0 40 ++ [255; 255; 0; 0; 0; 0] ++ repeat 0 8.
+Example crash_witness_now_error :
+  go_unmarshal 1048576 0 crash_witness = GErr EEof 0 /\
+  go_unmarshal 1048576 100000 crash_witness = GNil 100000 /\
+  load_binary 1048576 0 upvalue_witness = LErr EInvalidCode.
+Proof. vm_compute. repeat split. Qed.
+
+(* a negative length is now an error, not a swallowed Go panic *)
+Example negative_length_is_error :
+  go_unmarshal 1048576 0 ([6; 0; 4; 4] ++ le_enc 8 (-5)) = GErr EInvalidLength 0.
 Proof. vm_compute. reflexivity. Qed.
 
 (* ------------------------------------------------------------------ *)
-(* what the decoder does on hostile input: refutations                  *)
+(* the writer's budget                                                  *)
 
-(* 28 bytes: prefix, a code with empty source and name and 2^40 opcodes *)
-Definition crash_witness : bytes := [6; 0; 4; 5] ++ repeat 0 16 ++ le_enc 8 (2 ^ 40).
+Fixpoint words (k : cst) : Z :=
+  match k with
+  | KCode h ks => zlen (ops h) + zlen (lines h) + fold_right (fun k acc => words k + acc) 0 ks
+  | _ => 0
+  end.
 
-(* "UnmarshalConst never takes the process down" is false: with 4 GiB available to one
-   allocation the 28-byte stream requests 4 TiB before anything is checked, budget or not. *)
-Theorem unmarshal_total_no_panic_refuted :
-  exists inp, length inp = 28%nat /\
-    go_unmarshal (2 ^ 32) 0 inp = GCrash (2 ^ 42) /\
-    go_unmarshal (2 ^ 32) 1000 inp = GCrash (2 ^ 42) /\
-    load_binary (2 ^ 32) 1000 inp = LCrash (2 ^ 42).
-Proof. exists crash_witness. vm_compute. repeat split. Qed.
-
-(* a negative length is a Go run-time panic that the blanket recover() turns into "nil, no error" *)
-Theorem unmarshal_swallows_panic :
-  exists inp, go_unmarshal (2 ^ 32) 0 inp = GNil 0.
-Proof. exists ([6; 0; 4; 4] ++ le_enc 8 (-5)). vm_compute. reflexivity. Qed.
-
-(* 58 bytes that decode to a code with UpvalueCount = -1: load() panics in NewClosure *)
-Definition upvalue_witness : bytes := [6; 0; 4; 5] ++ repeat 0 40 ++ [255; 255; 0; 0; 0; 0] ++ repeat 0 8.
-Theorem load_no_panic_refuted :
-  exists inp, length inp = 58%nat /\ load_binary (2 ^ 32) 0 inp = LPanic.
-Proof. exists upvalue_witness. vm_compute. split; reflexivity. Qed.
+(* MarshalConst charges every byte it writes except the opcode and line arrays
+   (4 bytes per opcode and per line entry, at every nesting level, are not charged). *)
+Theorem marshal_charge : forall k, mcharge k + 4 * words k = cost k.
+Proof.
+  induction k as [z|bits|s|h ks IH] using cst_ind'.
+  - unfold cost. cbn [mcharge words marshal_cst]. rewrite zlen_cons, zlen_enc. lia.
+  - unfold cost. cbn [mcharge words marshal_cst]. rewrite zlen_cons, zlen_enc. lia.
+  - unfold cost. cbn [mcharge words marshal_cst]. rewrite zlen_cons, wstr_len. lia.
+  - rewrite cost_code. cbn [mcharge words].
+    assert (E1 : fold_right (fun k acc => mcharge k + acc) 0 ks + 4 * fold_right (fun k acc => words k + acc) 0 ks
+                 = sumz cost ks).
+    { induction ks as [|x ks IHks]; cbn [fold_right sumz]; [lia|].
+      rewrite <- (IH x (or_introl eq_refl)). rewrite <- IHks by (intros; apply IH; now right). lia. }
+    assert (E2 : fold_right (fun s acc => 8 + zlen s + acc) 0 (upnames h) = sumz (fun s => 8 + zlen s) (upnames h)).
+    { induction (upnames h) as [|x l IHl]; cbn [fold_right sumz]; [reflexivity|]. now rewrite IHl. }
+    lia.
+Qed.
